@@ -50,6 +50,10 @@ CHECKS = {
   text="Solver-decided, bounded: for every cloneable type and shape within the bounds the clone equals the original (repository Equal and an independent leaf comparison), and after an arbitrary mutation (chosen by Choice over every mutable location, with symbolic deltas) applied to either side the other side is leaf-for-leaf what it was; covers State, Allocation, Balances, Params, Transaction, CloneSigs, StateMachine, ActionMachine, CloneSource, FromSource.",
   note="Trusted: go/ssa lowering, interpreter (its pointer/aliasing semantics are translator-validated natively on the same harness), z3.",
   ref="DESIGN.md §3 C19"),
+ "C20": dict(
+  text="Solver/engine-decided, bounded: for every asset list, registered set, failing set and every completion order of the concurrent sub-calls within the bounds, the real multi.Adjudicator.Register/Progress/Withdraw and multi.Funder.Fund call each distinct registered ledger exactly once with the right method and nobody else, return nil exactly when every distinct ledger is registered and no call failed, and fund the egoistic ledger only after all other ledgers returned successfully; LedgerIDs yields the distinct ledgers in first-occurrence order (symbolic ids). Shapes and schedules are enumerated exhaustively within the bound by the engine's scheduler; ids in the LedgerIDs obligation are symbolic.",
+  note="Trusted: go/ssa lowering, interpreter and its cooperative scheduler (translator-validated natively on random vectors), context model; preemption bound 0.",
+  ref="DESIGN.md §3 C20, Appendix A.7"),
 }
 
 NOT_APPLICABLE = {
